@@ -173,3 +173,17 @@ FAMILIES["C04"] = dict(
                 "generous whitespace, compiled by the real parser, and its exported tree compared with the specification's by trace validation (TraceParse); seeded generated programs of every family are validated the same way."),
     level_note=_SEM_NOTE + " Regular-expression literals and lambda signatures are outside JSyntax (the specification abstains; see C17/C12).",
 )
+
+
+FAMILIES["C11"] = dict(
+    famtag="C11",
+    trace_module="TraceDenote",
+    g=[G("MC_C11", "MC_C11_quick.cfg", "MC_C11_thorough.cfg")],
+    v=[dict(profile="jsontext", n={"quick": 5000, "thorough": 100000})],
+    rule="a case is a candidate JSON text; non-trivial when it was accepted and evaluated to a value that the specification's denotation (or, for numerals outside the exact model, the reference decoder) confirms, or was rejected as malformed; distinct by bytes",
+    level_text=("The denotation of a JSON text is defined in TLA+ alone: JSyntax!Parse (escape decoding incl. \\uXXXX and surrogate pairing, numeral grammar and range rule, nested constructors) composed with the literal/constructor rules of JEval. "
+                "TLC checks on the specification that single- and double-quoted forms denote the same value, that string literals denote strings or are rejected, and that whitespace is insignificant, for every enumerated text: all string literals of <= 3 units over 27 units "
+                "(every escape form, BMP and astral characters raw and escaped, metacharacters, malformed escapes and unpaired surrogates), 420 numerals from the grammar plus edge numerals (17 digits, > 2^53, 1e308/1e309/1e400, subnormal, -0, malformed), containers to depth 3 incl. empty and array-in-array. "
+                "Each text is compiled as an expression and evaluated with EvalBytes by the real code and validated (TraceDenote); seeded random JSON documents written with random escape forms, number spellings, whitespace and malformed neighbours are validated the same way."),
+    level_note=_SEM_NOTE + " For numerals outside the exact-rational model (more than 9 significant digits or exponents) the value is compared with encoding/json's decoding of the same text (reference decoder, named by the property itself); strconv/math-big rounding is trusted there.",
+)
